@@ -102,12 +102,12 @@
 
 (define-syntax when
       (syntax-rules ()
-        ((when test result1 result2 ...)
+        ((when test result ...)
          (if test
-             (begin result1 result2 ...)))))
+             (begin result ...)))))
 
 (define-syntax unless
       (syntax-rules ()
-        ((unless test result1 result2 ...)
+        ((unless test result ...)
          (if (not test)
-             (begin result1 result2 ...)))))
+             (begin result ...)))))
